@@ -16,7 +16,7 @@ func init() {
 		Rule: "one run = one generated application with LOAD/RELOAD/MAP at depths 0..6, the same symbols loaded in several nodes, declared sizes 0..65535, scripted results of any length (empty, at the limit, limit+1, >= 65536, multi-row) and failing external calls + a history that descends, ascends, rewinds and re-enters, with restarts; " +
 			"the external call log, the symbol tables per stack level and the values shown on the page must equal the reference model's after every request; templates that reference a symbol the node does not map must fail to render; " +
 			"non-trivial = at least one LOAD skipped because the symbol was visible, one scope released by an ascent and one RELOAD; distinct = distinct sequences of (path, symbol table shape)",
-		Runs:       map[string]int{"quick": 40000, "thorough": 1500000},
+		Runs:       map[string]int{"quick": 40000, "thorough": 6000000},
 		MaxSeconds: map[string]int{"quick": 40, "thorough": 900},
 		Run:        runC05,
 		Assumptions: []string{
